@@ -173,7 +173,7 @@ def c05_catchup_strict_guard : Bool := true
 def c05_catchup_writes_missing_marker : Bool := true
 
 /-- order state/execution.go BlockExecutor.Commit -/
-def c05_commit_order : List String := ["FlushAppConn", "Lock", "CommitSync", "Update"]
+def c05_commit_order : List String := ["Lock", "FlushAppConn", "CommitSync", "Update"]
 
 /-- order state/execution.go ExecCommitBlock -/
 def c05_execCommit_order : List String := ["execBlockOnProxyApp", "CommitSync"]
@@ -375,6 +375,21 @@ def c09_skipNum : Int := 9
 
 /-- cond light/verifier.go ValidateTrustLevel -/
 def c09_trust_level_guard : String := "lvl.Numerator*3 < lvl.Denominator || lvl.Numerator > lvl.Denominator || lvl.Denominator == 0"
+
+/-- cond consensus/reactor.go BlockPartMessage.ValidateBasic -/
+def c10_blockpartmsg_round_guard : String := "m.Round < 0"
+
+/-- cond consensus/state.go State.addProposalBlockPart -/
+def c10_cons_decode_guard : String := "added && cs.ProposalBlockParts.IsComplete()"
+
+/-- cond consensus/state.go State.addProposalBlockPart -/
+def c10_cons_height_guard : String := "cs.Height != height"
+
+/-- cond consensus/state.go State.addProposalBlockPart -/
+def c10_cons_maxbytes_guard : String := "cs.ProposalBlockParts.ByteSize() > cs.state.ConsensusParams.Block.MaxBytes"
+
+/-- has consensus/state.go State.enterCommit -/
+def c10_entercommit_hasheader : Bool := true
 
 /-- has types/part_set.go PartSet.HasHeader -/
 def c10_hasheader_equals : Bool := true
@@ -916,6 +931,6 @@ def types_MaxBlockPartsCount : Int := 1601
 /-- const types/vote_set.go MaxVotesCount -/
 def types_MaxVotesCount : Int := 10000
 
-def factCount : Nat := 305
+def factCount : Nat := 310
 
 end Tmv.Facts
